@@ -232,8 +232,37 @@ def runColOps (src : IdSource) (cols : List (String × Option ColSetting)) : Nat
     pure (out :: (← runColOps src cols n st rest))
   | _, _, _ => none
 
+/-- replay the write history of a proxy world: `(session col value stored)×n`, each write drawing what it stored -/
+def replayWrites (src : IdSource) (cols : List (String × Option ColSetting)) : Nat → TokStore → List String → Option TokStore
+  | 0, st, [] => some st
+  | n + 1, st, session :: col :: value :: stored :: rest => do
+    let session ← ofHex session
+    let v ← ofHex value
+    let tok ← ofHex stored
+    match (cols.find? (·.1 == col)).bind (·.2) with
+    | none => replayWrites src cols n st rest
+    | some s =>
+      match proxyWrite C src st session s v [tok] with
+      | .ok (st', _) => replayWrites src cols n st' rest
+      | _ => replayWrites src cols n st rest
+  | _, _, _ => none
+
 def handle (op : String) (args : List String) : Option String :=
   match op, args with
+  -- px.read handle dialect session col row data ncols cols… nhist (session col value stored)×nhist : a session of a
+  -- real proxy selects column `col` of a row that holds `data`; the history says what every earlier write stored
+  | "px.read", _ :: dialect :: session :: col :: _ :: data :: ncols :: rest => do
+      let (cols, rest) ← parseCols (← ncols.toNat?) rest
+      match rest with
+      | nhist :: rest => do
+        let site ← (match dialect with | "pg" => some pgWriteSite | "my" => some myWriteSite | _ => none)
+        let st ← replayWrites (writeSourceOf site) cols (← nhist.toNat?) [] rest
+        let setting := (cols.find? (·.1 == col)).bind (·.2)
+        pure (match onColumnToken C st (← ofHex session) setting (← ofHex data) with
+          | .ok b => hexOf b
+          | .err => "err"
+          | .panic => "panic")
+      | _ => none
   -- tokcol.run dialect ncols (name cid ty consistent)×ncols nops ops… : values written through the statement
   -- encryptor of a proxy and columns read back, one token storage
   | "tokcol.run", dialect :: ncols :: rest => do
